@@ -375,7 +375,7 @@ def gen_malformed(ctx):
     per_kind = {}
     for c, o in pool:
         per_kind.setdefault(c["kind"], []).append((c, o))
-    take = 2 if quick else 12
+    take = 2 if quick else 6
     for kind in KINDS:
         for c, o in sorted(per_kind.get(kind, []), key=lambda co: co[1]["len"])[:take] + per_kind.get(kind, [])[:take]:
             b = bytes.fromhex(o["bytes"])
